@@ -270,6 +270,43 @@ def handle (ws : List String) : String :=
         | .opaque => "throw:SyntaxError"
       mo ++ " " ++ sp ++ " " ++ devOut (devX pat fb sb steps)
     | _, _, _, _ => "bad-op"
+  -- lastIndex is a scripted OBJECT: kind o<li> = {valueOf: logs, returns the number <li>}, kind x = {valueOf: throws}.
+  -- steps e / t / m only.  Token per step: result @ (Tobject while the object is still there | the number), and the
+  -- number of valueOf calls at the end.  exec/test/non-global match convert lastIndex once per call – global or
+  -- not (execConvertsLastIndex); a throwing valueOf propagates and leaves everything as it was.
+  | ["xo", p, f, s, kind, st] => match hex? p, hex? f, hex? s, steps? st with
+    | some pb, some fb, some sb, some steps =>
+      let pat := Str.decodeRunes pb
+      let inner : Option LI := if kind = "x" then some .nan else li? (dropS kind 1)
+      let throws := kind = "x"
+      match inner with
+      | none => "bad-op"
+      | some v0 =>
+      let sim (g : Bool) (conv : Bool → Bool) (stepf : RX → Step → RX × Res) : String :=
+        let rec go : List Step → RX → Bool → Nat → List String → String
+          | [], _, _, log, acc => String.intercalate ";" acc.reverse ++ "|log:" ++ toString log
+          | stp :: rest, rx, isObj, log, acc =>
+            let isGlobalMatch : Bool := g && stp == .mtch
+            let reads : Bool := !isGlobalMatch && isObj && conv g
+            if reads && throws then go rest rx isObj log ("throw@Tobject" :: acc)
+            else
+              let log' := if reads then log + 1 else log
+              let (rx', r) := stepf rx stp
+              -- the property is written on failure (lastIndex := 0) and by a global expression
+              let written : Bool := g || (match r with | .null => true | .bool false => true | _ => false)
+              let isObj' : Bool := isObj && !written
+              go rest rx' isObj' log' ((resOut r ++ "@" ++ (if isObj' then "Tobject" else liOut rx'.lastIndex)) :: acc)
+        go steps { global := g, lastIndex := v0 } true 0 []
+      let mo := match buildModel pat fb with
+        | .error c => "throw:" ++ c
+        | .opaque => "unmodelled"
+        | .ok g d r => sim g Model.execConvertsLastIndex (fun rx stp => Model.step (goEngine d r) sb rx stp)
+      let sp := match buildSpec pat fb with
+        | .ok g d r => sim g Spec.execConvertsLastIndex (fun rx stp => Spec.step (es5Engine d r) (Str.unitsOfBytes sb) Str.unitsOfBytes rx stp)
+        | .error c => "throw:" ++ c
+        | .opaque => "throw:SyntaxError"
+      mo ++ " " ++ sp ++ " " ++ devOut (devX pat fb sb steps)
+    | _, _, _, _ => "bad-op"
   -- a RegExp whose lastIndex cannot be written (mode nw: defineProperty writable:false; fr: Object.freeze), then
   -- S.replace(re, counting function returning "-").  Global: the search of §15.5.4.10 begins with
   -- [[Put]]("lastIndex", 0, true) → TypeError BEFORE any call of the function (builtin_string.go:287-290 does the
